@@ -61,19 +61,29 @@ def native_run(jobs, timeout=600):
     return json.loads(p.stdout)
 
 
-def native_run_parallel(jobs, nproc=16, timeout=1500):
-    """spread native jobs over several /venv interpreters (order of results = order of jobs)"""
+def native_run_parallel(jobs, nproc=16, timeout=None):
+    """spread native jobs over several /venv interpreters (order of results = order of jobs).  Scheduling is dynamic: the
+    expensive jobs (large caps) go first, one per interpreter; the cheap ones in groups of eight.  A group whose interpreter
+    does not answer in time yields runner-error entries (reported as an engine error, exit 3 -- never as a verdict)."""
     if not jobs:
         return []
-    nproc = max(1, min(nproc, len(jobs)))
-    chunks = [jobs[i::nproc] for i in range(nproc)]
-    from concurrent.futures import ThreadPoolExecutor
-    with ThreadPoolExecutor(nproc) as ex:
-        parts = list(ex.map(lambda ch: native_run(ch, timeout), chunks))
+    order = sorted(range(len(jobs)), key=lambda i: -jobs[i].get("cap", 0))
+    big = [i for i in order if jobs[i].get("cap", 0) > 5000]
+    small = [i for i in order if jobs[i].get("cap", 0) <= 5000]
+    groups = [[i] for i in big] + [small[k:k + 8] for k in range(0, len(small), 8)]
     out = [None] * len(jobs)
-    for i, part in enumerate(parts):
-        for k, r in enumerate(part):
-            out[i + k * nproc] = r
+
+    def run(group):
+        limit = timeout or (sum(jobs[i].get("time_limit") or 600 for i in group) + 300)
+        try:
+            part = native_run([jobs[i] for i in group], limit)
+        except subprocess.TimeoutExpired:
+            part = [{"outcome": "runner-error", "reason": "native runner gave no answer within %d s" % limit}] * len(group)
+        for i, r in zip(group, part):
+            out[i] = r
+    from concurrent.futures import ThreadPoolExecutor
+    with ThreadPoolExecutor(max(1, min(nproc, len(groups)))) as ex:
+        list(ex.map(run, groups))
     return out
 
 
@@ -248,6 +258,7 @@ def cmd_check(prop, tier, seed, only=None, jobs=None):
     # caps count ATTEMPTS (candidates incl. those the contract's requires rejects).  A stand-in should exhaust its family:
     # two arrays of length <= 3 over 5 letters are 156^2 = 24336 candidates.
     maxlen, cap_standin, cap_xcheck = (3, 30000, 300) if tier == "quick" else (4, 700000, 3000)
+    tb_limit = 300 if tier == "quick" else 1500          # seconds per enumerated case; a case cut short is reported as such
     tb_jobs, tb_meta = [], []
     chosen = set()
     for r in ok_results:
@@ -260,13 +271,13 @@ def cmd_check(prop, tier, seed, only=None, jobs=None):
         if role:
             chosen.add((r["contract"], r["case"]))
             tb_jobs.append({"mode": "enumerate", "module": r["module"], "contract": r["contract"], "case": r["case_params"],
-                            "maxlen": maxlen, "cap": cap_standin, "seed": seed})
+                            "maxlen": maxlen, "cap": cap_standin, "seed": seed, "time_limit": tb_limit})
             tb_meta.append((r, role))
     rest = [r for r in ok_results if (r["contract"], r["case"]) not in chosen and by_name[r["contract"]].target]
     _random.Random(seed).shuffle(rest)
     for r in (rest if tier == "thorough" else rest[:48]):
         tb_jobs.append({"mode": "enumerate", "module": r["module"], "contract": r["contract"], "case": r["case_params"],
-                        "maxlen": maxlen, "cap": cap_xcheck, "seed": seed})
+                        "maxlen": maxlen, "cap": cap_xcheck, "seed": seed, "time_limit": tb_limit})
         tb_meta.append((r, "cross-check"))
     tb_res = native_run_parallel(tb_jobs, nproc)
     tierb = {}
@@ -278,7 +289,8 @@ def cmd_check(prop, tier, seed, only=None, jobs=None):
                                                         "bound": {"max_array_length": maxlen, "alphabet_sizes": 5, "scalar_candidates": 9,
                                                                   "cap_per_case": cap_standin if role != "cross-check" else cap_xcheck},
                                                         "cases": 0, "evaluations": 0, "rejected_by_requires": 0,
-                                                        "distinct_outcome_classes": 0, "cases_enumerated_exhaustively": 0, "failures": 0})
+                                                        "distinct_outcome_classes": 0, "cases_enumerated_exhaustively": 0,
+                                                        "cases_cut_short_by_the_time_limit": 0, "time_limit_per_case_s": tb_limit, "failures": 0})
         if "evaluations" not in st:
             tierb_errors.append("tier-B runner failed for %s[%s]: %s" % (r["contract"], r["case"], st.get("reason")))
             continue
@@ -287,6 +299,7 @@ def cmd_check(prop, tier, seed, only=None, jobs=None):
         agg["rejected_by_requires"] += st["rejected_by_requires"]
         agg["distinct_outcome_classes"] += st["distinct_nontrivial"]
         agg["cases_enumerated_exhaustively"] += 1 if st["exhaustive"] else 0
+        agg["cases_cut_short_by_the_time_limit"] += 1 if st.get("stopped_by_time_limit") else 0
         for e in st.get("errors", []):
             tierb_errors.append("contract %s[%s] cannot be evaluated natively: %s" % (r["contract"], r["case"], str(e.get("error"))[:300]))
         proved_here = set(r.get("proved_clauses", []))
@@ -514,4 +527,13 @@ def main(argv=None):
 
 
 if __name__ == "__main__":
-    sys.exit(main())
+    try:
+        code = main()
+    except SystemExit:
+        raise
+    except BaseException as e:                 # a crash of the checker is an engine error (exit 3), never a verdict
+        import traceback
+        traceback.print_exc()
+        print("ENGINE ERROR: the checker itself failed (%s: %s); no verdict" % (type(e).__name__, e))
+        code = 3
+    sys.exit(code)
